@@ -19,7 +19,7 @@ CONSTANTS Reqs,          \* request ids
           WithFlush      \* whether scripts may contain Flush
 
 Codes == {201, 404, 503}
-PanicVals == {"string", "error", "int", "nil", "struct", "wrappedAbort"}
+PanicVals == {"string", "error", "int", "nil", "struct", "wrappedAbort", "nilStringer", "badStringer", "nilError"}
 \* script: wh = 0 (no WriteHeader) or a code; write, flush: BOOLEAN; panicAt: 0 none, 1 first,
 \* 2 after WriteHeader, 3 after Write, 4 after Flush (the actions run in the order WriteHeader, Write, Flush)
 Scripts == [wh : {0} \cup Codes, write : BOOLEAN, flush : BOOLEAN, panicAt : 0..4, pv : PanicVals]
